@@ -572,14 +572,14 @@ def cases(tier, rng):
     yield "dump", corpus
     nconf = 6 if thorough else 4
     if thorough:
-        plan = [(7, 24), (6, 30), (5, 30), (4, 24), (3, 16), (2, 8), (1, 3)]
+        plan = [(7, 16), (6, 20), (5, 24), (4, 20), (3, 16), (2, 8), (1, 3)]
     else:
         plan = [(5, 8), (4, 10), (3, 12), (2, 8), (1, 3)]
     # largest first so that the long cases do not form the tail of the pool
     for n, count in plan:
         for _ in range(count):
             yield "matrix", _case(rng, n, nconf)
-    for n, count in ([(7, 6), (6, 8), (5, 10), (4, 10), (3, 8), (2, 4)] if thorough else [(5, 3), (4, 4), (3, 4), (2, 2)]):
+    for n, count in ([(7, 4), (6, 6), (5, 8), (4, 8), (3, 8), (2, 4)] if thorough else [(5, 3), (4, 4), (3, 4), (2, 2)]):
         for _ in range(count):
             c = _case(rng, n, 1)
             c["field"] = "count"
